@@ -35,7 +35,7 @@ m = {
  ],
  "checks": [],
  "not_applicable": [{"property_id": k, "reason": v} for k, v in sorted(NA.items())],
- "notes": "Technique family: deterministic simulation with fault injection. Two of twenty properties have state, histories and faults for a simulator to own (C06, C07); the other eighteen are pure functions of their inputs and are listed as not applicable with reasons (DESIGN.md sections 2 and 7). Genuine defects found on the pinned tree were repaired by separate 'fix:' commits in /repo and are recorded in known_findings.json as fixed."
+ "notes": "Technique family: deterministic simulation with fault injection. Two of twenty properties have state, histories and faults for a simulator to own (C06, C07); the other eighteen are pure functions of their inputs and are listed as not applicable with reasons (DESIGN.md sections 2 and 7). Genuine defects found on the pinned tree were repaired by separate 'fix:' commits in /repo and are recorded in known_findings.json as fixed. One further genuine defect (pdaniell: len(frequencies()) != len(psd), no small repair) is listed in known_findings.json as known; the C07 check re-observes it with a fixed probe and prints KNOWN-FINDING (DESIGN.md section 3.8); pdaniell is not driven by the seeded search."
 }
 C07 = {
  "property_id": "C07",
